@@ -24,6 +24,8 @@ import Anko.Model.PrecTable
 import Anko.Model.Num
 import Anko.Gen.Grammar
 import Anko.Props.GrammarTable
+import Anko.Props.Tie.Grammar
+import Anko.Props.Tie.LexFlow
 
 namespace Anko.C03
 open Anko Anko.Pratt Anko.PrecTable
@@ -314,6 +316,15 @@ Every production of parser/parser.go.y with its semantic action (which node is b
 the %type / %token declarations are the ones written down in Props/GrammarTable - the grammar the reference reading (PrecTable, Pratt) and the
 metamorphic stream were audited against. With `committed_parser_is_generated_from_grammar` (Gen/ParserGen) the compiled parser is pinned too. Any edit of these functions - also a harmless one - breaks this obligation by name; the check then
 searches model and implementation for a failing input (DESIGN.md 13.3). -/
-theorem grammar_actions_are_the_audited_ones : Gen.Grammar.leaves = Tables.grammar := by decide +kernel
+theorem grammar_actions_are_the_audited_ones : Gen.Grammar.leaves = Tables.grammar := Tie.grammar
+
+/-! ### Shared source ties
+
+The code this property is anchored in is also written down, leaf statement by leaf statement, by the tables below (each decided once in
+Props/Tie, `decide +kernel`, against the table regenerated from /repo on this run). A change of that code breaks the tie by name here too, and the check of
+this property then searches for a failing input - so a change that breaks this property through code whose primary table belongs to another
+property is not overlooked. -/
+/-- the scanner and the parser's entry points (lexer.go) -/
+theorem source_tie_LexFlow : Gen.LexFlow.leaves = Tables.lexFlow := Tie.lexFlow
 
 end Anko.C03
